@@ -85,7 +85,10 @@ def run_scenario(prop, scn, seed, plans=None, want_sample=False):
     P = props.PROPS[prop]
     t0 = REAL_TIME()
     run = P.execute(scn, seed, plans)
-    V, facts = P.check(run)
+    try:
+        V, facts = P.check(run)
+    finally:
+        runner._safe_rmtree(run.work)
     res = {
         "seed": seed,
         "violations": [v.to_json() for v in V],
@@ -294,6 +297,7 @@ def check_main(a):
                "--twice", str(twice), "--scenario-timeout", str(a.scenario_timeout)]
         env = dict(os.environ)
         env["PYTHONHASHSEED"] = env.get("PYTHONHASHSEED", "0")
+        env["CVERIF_TIER"] = tier
         procs.append((w, out, subprocess.Popen(cmd, env=env, stdout=subprocess.DEVNULL,
                                                stderr=open(str(out) + ".err", "w"))))
     deadline = REAL_TIME() + budget + 180
